@@ -17,7 +17,7 @@ partial : the generator itself is not modelled beyond its decision tables: progr
 """
 import re
 from lib.common import *
-from lib.gen_c import gen_program, Prog
+from lib.gen_c import gen_program, directed_programs, Prog
 from lib.oracle import *
 from lib.features import features
 from lib.gentab import run_gentab
@@ -50,6 +50,9 @@ def run(ctx):
     th = theorems()
     if th:
         ctx.proof_stage('Props.C01', th)
+    pl = os.path.join(COQ, 'Props', 'C01loops.v')
+    if os.path.exists(pl):
+        ctx.proof_stage('Props.C01loops', re.findall(r'^Theorem (\w+)', open(pl).read(), re.M))
     findings = [f for f in ctx.findings if f.get('status') == 'open']
     # corr-M: the generator's comparison lowering vs Model/GenTables.v, every cell
     ncell, tab_mism, _ = run_gentab()
@@ -70,8 +73,10 @@ def run(ctx):
             ('full', dict(bait=True, bait_p=0.15), 250 if quick else 8000, ['-O0'] if quick else ['-O0', '-O1']),
             ('bait', dict(bait=True, inline=True, shorts='always', bait_p=0.4), 200 if quick else 5000, ['-O1'] if quick else ['-O0', '-O1']),
             ('ptr', dict(pointers=True, signed=False, shorts=False, bait=True, bait_p=0.15), 200 if quick else 5000, ['-O1'] if quick else ['-O0', '-O1']),
-            ('hw', dict(hw=True, signed=False, bait=True, bait_p=0.3), 150 if quick else 4000, ['-O1'] if quick else ['-O0', '-O1'])]:
-        progs = {'%s%d' % (label, i): gen_program(rng, opts) for i in range(n)}
+            ('hw', dict(hw=True, signed=False, bait=True, bait_p=0.3), 150 if quick else 4000, ['-O1'] if quick else ['-O0', '-O1']),
+            # the fixed enumeration of the bait families: the same programs every run
+            ('directed', None, 0, ['-O0', '-O1'] if quick else ['-O0', '-O1', '-O2', '-O3'])]:
+        progs = {'%s%d' % (label, i): gen_program(rng, opts) for i in range(n)} if label != 'directed' else directed_programs()
         nprog += len(progs)
         for O in levels:
             res = c_vs_machine(progs, [O], 12 if quick else 32, rng)
